@@ -87,7 +87,7 @@ Definition prop_case (c : case) : bool :=
     match load_validate (vl_of inv) d with
     | Ok c => wf_check c
     | Err _ => true
-    | Panic => match d with Some d' => negb (deref_free d') | None => false end   (* only the three recorded shapes *)
+    | Panic => false
     end
   | CSecret t _ =>
     forallb (fun s => negb (occurs s (render t))) (secrets_of t) && String.eqb (render t) (render (erase_secrets t))
